@@ -315,8 +315,8 @@ def free_with_block(rs):
         maybe("freewith", 3)
 
 
-def unsat_call(o, kind):
-    with o.randomize_with() as it:
+def unsat_call(o, kind, debug=0):
+    with (o.randomize_with(solve_fail_debug=1) if debug else o.randomize_with()) as it:
         if kind == "plain":
             it.a > it.b
         elif kind == "list":
@@ -347,6 +347,7 @@ def fault_menu():
             F.append(("with", scn, k))
         F.append(("unsat", scn, None))
         F.append(("unsat_plain_randomize", scn, None))
+        F.append(("unsat_debug", scn, None))       # the failing call asks for diagnostics (solve_fail_debug=1)
     for k in (0, 1, 2, 3):
         F.append(("freewith", "plain", k))
     F += [("pre", "plain", "P"), ("post", "plain", "P"), ("pre", "nested", "H"), ("pre", "nested", "Sub"),
@@ -498,6 +499,10 @@ def run_session(fault, followups, scripts, with_fault):
                 o = ctx["victim"]
                 o.set_randstate(SRandState(Script([])))
                 victim_obs = common.outcome(lambda: unsat_call(o, kind))
+            elif fault[0] == "unsat_debug":
+                o = ctx["victim"]
+                o.set_randstate(SRandState(Script([])))
+                victim_obs = common.outcome(lambda: unsat_call(o, kind, debug=1))
             elif fault[0] == "unsat_plain_randomize":
                 # make the class block itself unsatisfiable through rand_mode: freeze fields at violating values
                 o = ctx["victim"]
